@@ -395,7 +395,7 @@ pub fn run(rep: &mut Report, focus: &'static str) {
     let n: u64 = if thorough { 6000 } else { 200 };
     let table = Arc::new(slot_keys());
     crate::c02::run_sharded(rep, n, 16, move |local, sub, rt| {
-        rt.block_on(run_one(local, sub, table.clone(), focus));
+        crate::run_guarded!(rt, local, focus, sub, 1_000_000u64, run_one(local, sub, table.clone(), focus));
     });
     rep.floor("migrations_run_under_traffic", if thorough { 1000 } else { 60 });
     rep.floor("keys_linearizable", 500);
